@@ -21,10 +21,12 @@ EXTENDS Naturals, Sequences, FiniteSets, TLC
 
 CONSTANTS
   MM,    \* [root |-> class name,
-         \*  classes   |-> Seq of [name, named, attrs |-> Seq of [name, cont, many, typ, alts]],
+         \*  classes   |-> Seq of [name, named, attrs |-> Seq of [name, cont, many, typ, alts, prim]],
          \*  abstracts |-> Seq of [name, subs |-> Seq of rule names]]
          \* typ is a rule name, or "OBJECT" for an attribute assigned at several
          \* places with different rules, which are then listed in alts.
+         \* prim: the attribute can also hold plain values (a match-rule /
+         \* base-type alternative); in a model such a value is written 0.
          \* The rule hierarchy may contain diamonds and cycles.
   Dev    \* set of deviation clause names
 
@@ -78,7 +80,9 @@ Below(t, fuel) ==
 
 Objs(g) == 1..Len(g.cls)
 
-KidsOf(g, o) == Flat([i \in 1..Len(g.kids[o]) |-> g.kids[o][i].e])
+\* the objects o contains, in order (plain values, written 0, are not objects:
+\* they are never returned, have no parent and nothing below them)
+KidsOf(g, o) == SelectSeq(Flat([i \in 1..Len(g.kids[o]) |-> g.kids[o][i].e]), LAMBDA k : k # 0)
 
 Roots(g)   == {o \in Objs(g) : g.par[o] = 0}
 TheRoot(g) == CHOOSE o \in Objs(g) : g.par[o] = 0
@@ -105,7 +109,8 @@ WellFormed(g) ==
                /\ (~ca[i].many => Len(g.kids[o][i].e) <= 1)
                /\ \A j \in 1..Len(g.kids[o][i].e) :
                     LET k == g.kids[o][i].e[j] IN
-                    k \in Objs(g) /\ g.cls[k] \in Allowed(ca[i])
+                    \/ k = 0 /\ ca[i].prim
+                    \/ k \in Objs(g) /\ g.cls[k] \in Allowed(ca[i])
           /\ \A i \in 1..Len(ra) :
                /\ g.refs[o][i].a = ra[i].name
                /\ (~ra[i].many => Len(g.refs[o][i].names) <= 1)
